@@ -6,7 +6,7 @@
   Requests (fields separated by '|'); every op request ends with <fn>|<coords list> where applicable:
     bw|outInd|chunks@ind/...|i:c:k / i:l:1,2 / i:o|i:1,1/...|align(0/1)|fn|coords
     mb|chunks/...|none or specs (i3;t1,1)|drop ints|none or new axes|fn|coords
-    elemwise|chunks/...|coords          squeeze|x|axes|coords      expand|x|axes|coords     permute|x|axes|coords
+    argmap|x|axis (int, may be negative)|coords    elemwise|chunks/...|coords          squeeze|x|axes|coords      expand|x|axes|coords     permute|x|axes|coords
     pr|x|ax:k,...|ax:k / ax:t5,5,2 ...|kind(0 keepdims/1 concat/2 toCombine)|coords
     concat|chunks/...|axis|none or chunks|coords
     stackunify|chunks/...    stack|chunks/...|axis|coords        unstack|x|axis|coords      repeat|x|r|axis|coords   copy|x|copy sizes|coords
@@ -179,6 +179,10 @@ def handle (line : String) : String :=
           cs.all (fun co => bwBlock b (.expandDims ax) co == (extents xc (removeAxes ax co)).map (expandAxes ax 1))
       | none => false
     handleMB (expandDimsMB xc ax) ("expand:" ++ axes) coords ++ " sc=" ++ (if sc then "1" else "0")
+  | ["argmap", x, axis, coords] =>
+    match (parseInt? axis).bind (fun a => argMapMB (parseChunks x) a) with
+    | some (m, ax) => handleMB m ("setaxis:" ++ toString ax ++ ":1") coords
+    | none => "error"
   | ["permute", x, axes, coords] =>
     let b := permuteBw (parseChunks x) (parseNats axes)
     answer (bwChunkss b) (bwBlock b .same) (parseCoords coords)
